@@ -281,22 +281,119 @@ theorem alpha_ex (M : HTI) (w : World) (body : Formula) (xs : List Var) (x fr : 
       · have e1 : u ≠ fr := fun e => hfv (e ▸ hu)
         simp [τ', Asg.set_other _ _ e1, Asg.set_other _ _ e2]
 
+/-- the same step when the renamed binder `x` is bound again later in the block (its first
+    binding is shadowed, so the value of the fresh variable is arbitrary) -/
+theorem alpha_dup_all (M : HTI) (w : World) (body : Formula) (xs : List Var) (x fr : Var)
+    (ρ : Asg) (hfx : fr ∉ xs) (hx : x ∈ xs) (hfv : ¬ body.FV fr) (hs : fr.sort = x.sort) :
+    (∀ d : Dom, d.inSort fr.sort →
+      bindAll xs (fun σ => ht M body w (σ.set x (vval σ fr))) (ρ.set fr d)) ↔
+      bindAll xs (ht M body w) ρ := by
+  simp only [bindAll_iff]
+  constructor
+  · intro H τ hτ
+    have hd : (τ x).inSort fr.sort := by rw [hs]; exact hτ.2 x hx
+    let τ' : Asg := τ.set fr (τ x)
+    have hτ' : AllUpd xs (ρ.set fr (τ x)) τ' := by
+      refine ⟨fun u hu => ?_, fun u hu => ?_⟩
+      · by_cases e1 : u = fr
+        · subst e1; simp [τ']
+        · simp only [τ', Asg.set_other _ _ e1]; exact hτ.1 u hu
+      · have e1 : u ≠ fr := fun e => hfx (e ▸ hu)
+        simp only [τ', Asg.set_other _ _ e1]; exact hτ.2 u hu
+    have h1 := H (τ x) hd τ' hτ'
+    have hv : vval τ' fr = τ x := by
+      have : τ' fr = τ x := by simp [τ']
+      rw [vval_of_inSort (by rw [this]; exact hd), this]
+    rw [hv] at h1
+    refine (ht_agree M body w _ _ ?_).mp h1
+    intro u hu
+    by_cases e2 : u = x
+    · subst e2; simp
+    · have e1 : u ≠ fr := fun e => hfv (e ▸ hu)
+      simp [τ', Asg.set_other _ _ e1, Asg.set_other _ _ e2]
+  · intro G d hd τ' hτ'
+    have hfr : τ' fr = d := by rw [hτ'.1 fr hfx]; simp
+    have hv : vval τ' fr = d := by
+      rw [vval_of_inSort (by rw [hfr]; exact hd), hfr]
+    rw [hv]
+    let τ : Asg := (τ'.set x d).set fr (ρ fr)
+    have hne : x ≠ fr := fun e => hfx (e ▸ hx)
+    have hτ : AllUpd xs ρ τ := by
+      refine ⟨fun u hu => ?_, fun u hu => ?_⟩
+      · by_cases e1 : u = fr
+        · subst e1; simp [τ]
+        · have e2 : u ≠ x := fun e => hu (e ▸ hx)
+          simp only [τ, Asg.set_other _ _ e1, Asg.set_other _ _ e2]
+          rw [hτ'.1 u hu, Asg.set_other _ _ e1]
+      · have e1 : u ≠ fr := fun e => hfx (e ▸ hu)
+        by_cases e2 : u = x
+        · subst e2; simp only [τ, Asg.set_other _ _ e1, Asg.set_same]; rw [← hs]; exact hd
+        · simp only [τ, Asg.set_other _ _ e1, Asg.set_other _ _ e2]; exact hτ'.2 u hu
+    refine (ht_agree M body w _ _ ?_).mp (G τ hτ)
+    intro u hu
+    have e1 : u ≠ fr := fun e => hfv (e ▸ hu)
+    simp [τ, Asg.set_other _ _ e1]
+
+theorem alpha_dup_ex (M : HTI) (w : World) (body : Formula) (xs : List Var) (x fr : Var)
+    (ρ : Asg) (hfx : fr ∉ xs) (hx : x ∈ xs) (hfv : ¬ body.FV fr) (hs : fr.sort = x.sort) :
+    (∃ d : Dom, d.inSort fr.sort ∧
+      bindEx xs (fun σ => ht M body w (σ.set x (vval σ fr))) (ρ.set fr d)) ↔
+      bindEx xs (ht M body w) ρ := by
+  simp only [bindEx_iff]
+  constructor
+  · rintro ⟨d, hd, τ', hτ', h1⟩
+    have hfr : τ' fr = d := by rw [hτ'.1 fr hfx]; simp
+    have hv : vval τ' fr = d := by
+      rw [vval_of_inSort (by rw [hfr]; exact hd), hfr]
+    rw [hv] at h1
+    let τ : Asg := (τ'.set x d).set fr (ρ fr)
+    refine ⟨τ, ⟨fun u hu => ?_, fun u hu => ?_⟩, ?_⟩
+    · by_cases e1 : u = fr
+      · subst e1; simp [τ]
+      · have e2 : u ≠ x := fun e => hu (e ▸ hx)
+        simp only [τ, Asg.set_other _ _ e1, Asg.set_other _ _ e2]
+        rw [hτ'.1 u hu, Asg.set_other _ _ e1]
+    · have e1 : u ≠ fr := fun e => hfx (e ▸ hu)
+      by_cases e2 : u = x
+      · subst e2; simp only [τ, Asg.set_other _ _ e1, Asg.set_same]; rw [← hs]; exact hd
+      · simp only [τ, Asg.set_other _ _ e1, Asg.set_other _ _ e2]; exact hτ'.2 u hu
+    · refine (ht_agree M body w _ _ ?_).mp h1
+      intro u hu
+      have e1 : u ≠ fr := fun e => hfv (e ▸ hu)
+      simp [τ, Asg.set_other _ _ e1]
+  · rintro ⟨τ, hτ, h1⟩
+    have hd : (τ x).inSort fr.sort := by rw [hs]; exact hτ.2 x hx
+    let τ' : Asg := τ.set fr (τ x)
+    have hv : vval τ' fr = τ x := by
+      have : τ' fr = τ x := by simp [τ']
+      rw [vval_of_inSort (by rw [this]; exact hd), this]
+    refine ⟨τ x, hd, τ', ⟨fun u hu => ?_, fun u hu => ?_⟩, ?_⟩
+    · by_cases e1 : u = fr
+      · subst e1; simp [τ']
+      · simp only [τ', Asg.set_other _ _ e1]; exact hτ.1 u hu
+    · have e1 : u ≠ fr := fun e => hfx (e ▸ hu)
+      simp only [τ', Asg.set_other _ _ e1]; exact hτ.2 u hu
+    · rw [hv]
+      refine (ht_agree M body w _ _ ?_).mp h1
+      intro u hu
+      by_cases e2 : u = x
+      · subst e2; simp
+      · have e1 : u ≠ fr := fun e => hfv (e ▸ hu)
+        simp [τ', Asg.set_other _ _ e1, Asg.set_other _ _ e2]
+
 /-! ## the renaming loop -/
 
 /-- what the induction hypothesis says about `substitute` at a given fuel -/
 structure SubOK (M : HTI) (sub : Formula → Var → GTerm → Formula) (n : Nat) : Prop where
-  sem : ∀ g, g.depth ≤ n → NodupBinders g → ∀ v s, SortCompatible v s → ∀ w ρ,
+  sem : ∀ g, g.depth ≤ n → ∀ v s, SortCompatible v s → ∀ w ρ,
     ht M (sub g v s) w ρ ↔ ht M g w (ρ.set v (s.eval M.fc ρ))
-  depth : ∀ g v s, g.depth ≤ n → NodupBinders g → (sub g v s).depth ≤ g.depth
-  nodup : ∀ g v s, g.depth ≤ n → NodupBinders g → NodupBinders (sub g v s)
-  fv : ∀ g v s, SortCompatible v s → g.depth ≤ n → NodupBinders g →
+  depth : ∀ g v s, g.depth ≤ n → (sub g v s).depth ≤ g.depth
+  fv : ∀ g v s, SortCompatible v s → g.depth ≤ n →
     ∀ u, (sub g v s).FV u → (g.FV u ∧ u ≠ v) ∨ u ∈ s.vars
 
 structure LoopOK (M : HTI) (tv xs : List Var) (body : Formula) (taken : List Var)
     (r : Formula × List Var) : Prop where
   depth : r.1.depth ≤ body.depth
-  nodupB : NodupBinders r.1
-  nodupV : r.2.Nodup
   vars : ∀ y ∈ r.2, y ∉ tv ∧ (y ∈ xs ∨ y ∉ taken)
   fv : ∀ u, r.1.FV u → u ∉ r.2 → body.FV u ∧ u ∉ xs
   semAll : ∀ w ρ, bindAll r.2 (ht M r.1 w) ρ ↔ bindAll xs (ht M body w) ρ
@@ -304,18 +401,17 @@ structure LoopOK (M : HTI) (tv xs : List Var) (body : Formula) (taken : List Var
 
 theorem renameLoop_ok (M : HTI) (sub : Formula → Var → GTerm → Formula) (n : Nat)
     (hok : SubOK M sub n) (tv : List Var) :
-    ∀ (xs : List Var) (body : Formula) (taken : List Var), body.depth ≤ n → NodupBinders body →
-      xs.Nodup → (∀ u, body.FV u → u ∈ taken) → (∀ u ∈ tv, u ∈ taken) → (∀ u ∈ xs, u ∈ taken) →
+    ∀ (xs : List Var) (body : Formula) (taken : List Var), body.depth ≤ n →
+      (∀ u, body.FV u → u ∈ taken) → (∀ u ∈ tv, u ∈ taken) → (∀ u ∈ xs, u ∈ taken) →
       LoopOK M tv xs body taken (renameLoop sub tv xs body taken) := by
   intro xs
   induction xs with
   | nil =>
-    intro body taken _ hnb _ _ _ _
-    exact ⟨Nat.le_refl _, hnb, List.nodup_nil, fun _ h => (by cases h),
+    intro body taken _ _ _ _
+    exact ⟨Nat.le_refl _, fun _ h => (by cases h),
       fun u h _ => ⟨h, (by simp)⟩, fun _ _ => Iff.rfl, fun _ _ => Iff.rfl⟩
   | cons x xs ih =>
-    intro body taken hd hnb hxs hfvt htv hxt
-    have hxs' := (List.nodup_cons.mp hxs)
+    intro body taken hd hfvt htv hxt
     by_cases hx : x ∈ tv
     · -- the binder is captured: rename it
       simp only [renameLoop, hx, if_true]
@@ -327,22 +423,16 @@ theorem renameLoop_ok (M : HTI) (sub : Formula → Var → GTerm → Formula) (n
       have hne : fr ≠ x := fun e => hfrT (e ▸ hxT)
       have hfrxs : fr ∉ xs := fun h => hfrT (hxt fr (List.mem_cons_of_mem _ h))
       have hfrfv : ¬ body.FV fr := fun h => hfrT (hfvt fr h)
-      have hb1d : (sub body x fr.toTerm).depth ≤ body.depth := hok.depth body x _ hd hnb
+      have hb1d : (sub body x fr.toTerm).depth ≤ body.depth := hok.depth body x _ hd
       have hrec := ih (sub body x fr.toTerm) (ins taken fr) (Nat.le_trans hb1d hd)
-        (hok.nodup body x _ hd hnb) hxs'.2
         (fun u hu => by
-          rcases hok.fv body x _ hcompat hd hnb u hu with ⟨h1, _⟩ | h2
+          rcases hok.fv body x _ hcompat hd u hu with ⟨h1, _⟩ | h2
           · exact mem_ins.mpr (Or.inl (hfvt u h1))
           · rw [toTerm_vars] at h2
             exact mem_ins.mpr (Or.inr (by simpa using h2)))
         (fun u hu => mem_ins.mpr (Or.inl (htv u hu)))
         (fun u hu => mem_ins.mpr (Or.inl (hxt u (List.mem_cons_of_mem _ hu))))
-      refine ⟨Nat.le_trans hrec.depth hb1d, hrec.nodupB, ?_, ?_, ?_, ?_, ?_⟩
-      · -- Nodup of fr :: r.2
-        refine List.nodup_cons.mpr ⟨fun hm => ?_, hrec.nodupV⟩
-        rcases (hrec.vars fr hm).2 with h | h
-        · exact hfrxs h
-        · exact h (mem_ins.mpr (Or.inr rfl))
+      refine ⟨Nat.le_trans hrec.depth hb1d, ?_, ?_, ?_, ?_⟩
       · intro y hy
         rcases List.mem_cons.mp hy with rfl | hy'
         · exact ⟨fun h => hfrT (htv _ h), Or.inr hfrT⟩
@@ -356,40 +446,45 @@ theorem renameLoop_ok (M : HTI) (sub : Formula → Var → GTerm → Formula) (n
           fun h => hnot (List.mem_cons_of_mem _ h)
         have hufr : u ≠ fr := fun e => hnot (e ▸ List.mem_cons_self)
         obtain ⟨h1, h2⟩ := hrec.fv u hu hnot'
-        rcases hok.fv body x _ hcompat hd hnb u h1 with ⟨h3, h4⟩ | h5
+        rcases hok.fv body x _ hcompat hd u h1 with ⟨h3, h4⟩ | h5
         · exact ⟨h3, by simp [h4, h2]⟩
         · rw [toTerm_vars] at h5
           exact absurd (by simpa using h5) hufr
       · intro w ρ
-        simp only [bindAll]
-        refine forall_congr' fun d => ?_
-        rw [hfrS]
-        refine imp_congr_right fun hdS => ?_
-        rw [hrec.semAll w (ρ.set fr d)]
         have hsem : ∀ σ, ht M (sub body x fr.toTerm) w σ ↔ ht M body w (σ.set x (vval σ fr)) :=
-          fun σ => by rw [hok.sem body hd hnb x _ hcompat w σ, toTerm_eval']
-        rw [bindAll_congr hsem]
-        exact alpha_all M w body xs x fr d ρ hfrxs hxs'.1 hne hfrfv (by rw [hfrS]; exact hdS)
+          fun σ => by rw [hok.sem body hd x _ hcompat w σ, toTerm_eval']
+        by_cases hxd : x ∈ xs
+        · rw [bindAll_perm (L := x :: xs) (L' := xs) (fun u => by simp; intro e; exact e ▸ hxd)]
+          simp only [bindAll]
+          rw [← alpha_dup_all M w body xs x fr ρ hfrxs hxd hfrfv hfrS]
+          refine forall_congr' fun d => imp_congr_right fun _ => ?_
+          rw [hrec.semAll w (ρ.set fr d), bindAll_congr hsem]
+        · simp only [bindAll]
+          refine forall_congr' fun d => ?_
+          rw [hfrS]
+          refine imp_congr_right fun hdS => ?_
+          rw [hrec.semAll w (ρ.set fr d), bindAll_congr hsem]
+          exact alpha_all M w body xs x fr d ρ hfrxs hxd hne hfrfv (by rw [hfrS]; exact hdS)
       · intro w ρ
-        simp only [bindEx]
-        refine exists_congr fun d => ?_
-        rw [hfrS]
-        refine and_congr_right fun hdS => ?_
-        rw [hrec.semEx w (ρ.set fr d)]
         have hsem : ∀ σ, ht M (sub body x fr.toTerm) w σ ↔ ht M body w (σ.set x (vval σ fr)) :=
-          fun σ => by rw [hok.sem body hd hnb x _ hcompat w σ, toTerm_eval']
-        rw [bindEx_congr hsem]
-        exact alpha_ex M w body xs x fr d ρ hfrxs hxs'.1 hne hfrfv (by rw [hfrS]; exact hdS)
+          fun σ => by rw [hok.sem body hd x _ hcompat w σ, toTerm_eval']
+        by_cases hxd : x ∈ xs
+        · rw [bindEx_perm (L := x :: xs) (L' := xs) (fun u => by simp; intro e; exact e ▸ hxd)]
+          simp only [bindEx]
+          rw [← alpha_dup_ex M w body xs x fr ρ hfrxs hxd hfrfv hfrS]
+          refine exists_congr fun d => and_congr_right fun _ => ?_
+          rw [hrec.semEx w (ρ.set fr d), bindEx_congr hsem]
+        · simp only [bindEx]
+          refine exists_congr fun d => ?_
+          rw [hfrS]
+          refine and_congr_right fun hdS => ?_
+          rw [hrec.semEx w (ρ.set fr d), bindEx_congr hsem]
+          exact alpha_ex M w body xs x fr d ρ hfrxs hxd hne hfrfv (by rw [hfrS]; exact hdS)
     · -- the binder is kept
       simp only [renameLoop, hx, if_false]
-      have hrec := ih body taken hd hnb hxs'.2 hfvt htv
+      have hrec := ih body taken hd hfvt htv
         (fun u hu => hxt u (List.mem_cons_of_mem _ hu))
-      have hxT : x ∈ taken := hxt x List.mem_cons_self
-      refine ⟨hrec.depth, hrec.nodupB, ?_, ?_, ?_, ?_, ?_⟩
-      · refine List.nodup_cons.mpr ⟨fun hm => ?_, hrec.nodupV⟩
-        rcases (hrec.vars x hm).2 with h | h
-        · exact hxs'.1 h
-        · exact h hxT
+      refine ⟨hrec.depth, ?_, ?_, ?_, ?_⟩
       · intro y hy
         rcases List.mem_cons.mp hy with rfl | hy'
         · exact ⟨hx, Or.inl List.mem_cons_self⟩
@@ -408,44 +503,46 @@ theorem renameLoop_ok (M : HTI) (sub : Formula → Var → GTerm → Formula) (n
 
 /-! ## the main induction -/
 
-theorem set_comm_ne (ρ : Asg) {x v : Var} (h : x ≠ v) (a b : Dom) :
-    (ρ.set x a).set v b = (ρ.set v b).set x a := by
-  funext w; simp only [Asg.set]; split <;> split <;> simp_all
+theorem loop_hyps (f : Formula) (s : GTerm) (vs : List Var) (v : Var) :
+    (∀ u, f.FV u → u ∈ ins (ext (ext f.fv s.vars) vs) v) ∧
+    (∀ u ∈ s.vars, u ∈ ins (ext (ext f.fv s.vars) vs) v) ∧
+    (∀ u ∈ vs, u ∈ ins (ext (ext f.fv s.vars) vs) v) :=
+  ⟨fun u hu => mem_ins.mpr (Or.inl (mem_ext.mpr (Or.inl (mem_ext.mpr (Or.inl (Formula.mem_fv.mpr hu)))))),
+   fun u hu => mem_ins.mpr (Or.inl (mem_ext.mpr (Or.inl (mem_ext.mpr (Or.inr hu))))),
+   fun u hu => mem_ins.mpr (Or.inl (mem_ext.mpr (Or.inr hu)))⟩
 
 theorem substFuel_ok (M : HTI) : ∀ n, SubOK M (Formula.substFuel n) n := by
   intro n
   induction n with
   | zero =>
-    refine ⟨?_, ?_, ?_, ?_⟩
-    · intro g hd _ v s hc w ρ
+    refine ⟨?_, ?_, ?_⟩
+    · intro g hd v s hc w ρ
       cases g with
       | atomic a => simp only [Formula.substFuel, ht]; exact a.sat_subst _ _ ρ v s hc
       | not f => simp [Formula.depth] at hd
       | bin c l r => simp [Formula.depth] at hd
       | quant q vs f => simp [Formula.depth] at hd
-    · intro g v s hd _
+    · intro g v s hd
       cases g <;> simp [Formula.substFuel, Formula.depth]
-    · intro g v s hd hn
-      cases g <;> simp_all [Formula.substFuel, NodupBinders]
-    · intro g v s hc hd _ u hu
+    · intro g v s hc hd u hu
       cases g with
       | atomic a => exact AtomicF.mem_vars_subst hc hu
       | not f => simp [Formula.depth] at hd
       | bin c l r => simp [Formula.depth] at hd
       | quant q vs f => simp [Formula.depth] at hd
   | succ n ih =>
-    refine ⟨?_, ?_, ?_, ?_⟩
+    refine ⟨?_, ?_, ?_⟩
     · -- semantics
-      intro g hd hnb v s hc w ρ
+      intro g hd v s hc w ρ
       cases g with
       | atomic a => simp only [Formula.substFuel, ht]; exact a.sat_subst _ _ ρ v s hc
       | not f =>
         simp only [Formula.substFuel, ht]
-        exact not_congr (ih.sem f (by simp [Formula.depth] at hd; omega) hnb v s hc .there ρ)
+        exact not_congr (ih.sem f (by simp [Formula.depth] at hd; omega) v s hc .there ρ)
       | bin c l r =>
         simp only [Formula.depth] at hd
-        have hl := fun w => ih.sem l (by omega) hnb.1 v s hc w ρ
-        have hr := fun w => ih.sem r (by omega) hnb.2 v s hc w ρ
+        have hl := fun w => ih.sem l (by omega) v s hc w ρ
+        have hr := fun w => ih.sem r (by omega) v s hc w ρ
         cases c <;> simp only [Formula.substFuel, ht, hl, hr]
       | quant q vs f =>
         have hdf : f.depth ≤ n := by simp [Formula.depth] at hd; omega
@@ -456,11 +553,8 @@ theorem substFuel_ok (M : HTI) : ∀ n, SubOK M (Formula.substFuel n) n := by
             have : x ≠ v := fun e => hx.2 (e ▸ hv)
             exact (Asg.set_other _ _ this).symm)
         · rename_i hv
-          have hL := renameLoop_ok M (Formula.substFuel n) n ih s.vars vs f
-            (ins (ext (ext f.fv s.vars) vs) v) hdf hnb.2 hnb.1
-            (fun u hu => mem_ins.mpr (Or.inl (mem_ext.mpr (Or.inl (mem_ext.mpr (Or.inl (Formula.mem_fv.mpr hu)))))))
-            (fun u hu => mem_ins.mpr (Or.inl (mem_ext.mpr (Or.inl (mem_ext.mpr (Or.inr hu))))))
-            (fun u hu => mem_ins.mpr (Or.inl (mem_ext.mpr (Or.inr hu))))
+          obtain ⟨h1, h2, h3⟩ := loop_hyps f s vs v
+          have hL := renameLoop_ok M (Formula.substFuel n) n ih s.vars vs f _ hdf h1 h2 h3
           generalize renameLoop (Formula.substFuel n) s.vars vs f (ins (ext (ext f.fv s.vars) vs) v) = r at hL
           have hr1d : r.1.depth ≤ n := Nat.le_trans hL.depth hdf
           have hvr : v ∉ r.2 := fun hm => by
@@ -470,81 +564,54 @@ theorem substFuel_ok (M : HTI) : ∀ n, SubOK M (Formula.substFuel n) n := by
           have htv : ∀ x ∈ r.2, x ∉ s.vars := fun x hx => (hL.vars x hx).1
           rw [ht_quantify']
           cases q <;> simp only [ht]
-          · rw [bindAll_congr (fun ρ' => ih.sem r.1 hr1d hL.nodupB v s hc w ρ') ρ]
+          · rw [bindAll_congr (fun ρ' => ih.sem r.1 hr1d v s hc w ρ') ρ]
             rw [bindAll_term_const M.fc htv (fun ρ' d => ht M r.1 w (ρ'.set v d)) ρ]
             rw [bind_set_comm_all hvr]
             exact hL.semAll w _
-          · rw [bindEx_congr (fun ρ' => ih.sem r.1 hr1d hL.nodupB v s hc w ρ') ρ]
+          · rw [bindEx_congr (fun ρ' => ih.sem r.1 hr1d v s hc w ρ') ρ]
             rw [bindEx_term_const M.fc htv (fun ρ' d => ht M r.1 w (ρ'.set v d)) ρ]
             rw [bind_set_comm_ex hvr]
             exact hL.semEx w _
     · -- depth
-      intro g v s hd hnb
+      intro g v s hd
       cases g with
       | atomic a => simp [Formula.substFuel, Formula.depth]
       | not f =>
         simp only [Formula.substFuel, Formula.depth] at hd ⊢
-        have := ih.depth f v s (by omega) hnb; omega
+        have := ih.depth f v s (by omega); omega
       | bin c l r =>
         simp only [Formula.substFuel, Formula.depth] at hd ⊢
-        have h1 := ih.depth l v s (by omega) hnb.1
-        have h2 := ih.depth r v s (by omega) hnb.2
+        have h1 := ih.depth l v s (by omega)
+        have h2 := ih.depth r v s (by omega)
         omega
       | quant q vs f =>
         have hdf : f.depth ≤ n := by simp [Formula.depth] at hd; omega
         simp only [Formula.substFuel]
         split
         · exact Nat.le_refl _
-        · have hL := renameLoop_ok M (Formula.substFuel n) n ih s.vars vs f
-            (ins (ext (ext f.fv s.vars) vs) v) hdf hnb.2 hnb.1
-            (fun u hu => mem_ins.mpr (Or.inl (mem_ext.mpr (Or.inl (mem_ext.mpr (Or.inl (Formula.mem_fv.mpr hu)))))))
-            (fun u hu => mem_ins.mpr (Or.inl (mem_ext.mpr (Or.inl (mem_ext.mpr (Or.inr hu))))))
-            (fun u hu => mem_ins.mpr (Or.inl (mem_ext.mpr (Or.inr hu))))
+        · obtain ⟨h1, h2, h3⟩ := loop_hyps f s vs v
+          have hL := renameLoop_ok M (Formula.substFuel n) n ih s.vars vs f _ hdf h1 h2 h3
           generalize renameLoop (Formula.substFuel n) s.vars vs f (ins (ext (ext f.fv s.vars) vs) v) = r at hL
           have h1 := quantify_depth (Formula.substFuel n r.1 v s) q r.2
-          have h2 := ih.depth r.1 v s (Nat.le_trans hL.depth hdf) hL.nodupB
+          have h2 := ih.depth r.1 v s (Nat.le_trans hL.depth hdf)
           have h3 := hL.depth
           simp only [Formula.depth]
           omega
-    · -- binder lists stay duplicate-free
-      intro g v s hd hnb
-      cases g with
-      | atomic a => simp [Formula.substFuel, NodupBinders]
-      | not f =>
-        simp only [Formula.substFuel, NodupBinders]
-        exact ih.nodup f v s (by simp [Formula.depth] at hd; omega) hnb
-      | bin c l r =>
-        simp only [Formula.depth] at hd
-        simp only [Formula.substFuel, NodupBinders]
-        exact ⟨ih.nodup l v s (by omega) hnb.1, ih.nodup r v s (by omega) hnb.2⟩
-      | quant q vs f =>
-        have hdf : f.depth ≤ n := by simp [Formula.depth] at hd; omega
-        simp only [Formula.substFuel]
-        split
-        · exact hnb
-        · have hL := renameLoop_ok M (Formula.substFuel n) n ih s.vars vs f
-            (ins (ext (ext f.fv s.vars) vs) v) hdf hnb.2 hnb.1
-            (fun u hu => mem_ins.mpr (Or.inl (mem_ext.mpr (Or.inl (mem_ext.mpr (Or.inl (Formula.mem_fv.mpr hu)))))))
-            (fun u hu => mem_ins.mpr (Or.inl (mem_ext.mpr (Or.inl (mem_ext.mpr (Or.inr hu))))))
-            (fun u hu => mem_ins.mpr (Or.inl (mem_ext.mpr (Or.inr hu))))
-          generalize renameLoop (Formula.substFuel n) s.vars vs f (ins (ext (ext f.fv s.vars) vs) v) = r at hL
-          exact quantify_nodup _ q r.2 hL.nodupV
-            (ih.nodup r.1 v s (Nat.le_trans hL.depth hdf) hL.nodupB)
     · -- free variables
-      intro g v s hc hd hnb u hu
+      intro g v s hc hd u hu
       cases g with
       | atomic a => exact AtomicF.mem_vars_subst hc hu
       | not f =>
         simp only [Formula.substFuel, Formula.FV] at hu ⊢
-        exact ih.fv f v s hc (by simp [Formula.depth] at hd; omega) hnb u hu
+        exact ih.fv f v s hc (by simp [Formula.depth] at hd; omega) u hu
       | bin c l r =>
         simp only [Formula.depth] at hd
         simp only [Formula.substFuel, Formula.FV] at hu ⊢
         rcases hu with hu | hu
-        · rcases ih.fv l v s hc (by omega) hnb.1 u hu with ⟨a, b⟩ | c
+        · rcases ih.fv l v s hc (by omega) u hu with ⟨a, b⟩ | c
           · exact Or.inl ⟨Or.inl a, b⟩
           · exact Or.inr c
-        · rcases ih.fv r v s hc (by omega) hnb.2 u hu with ⟨a, b⟩ | c
+        · rcases ih.fv r v s hc (by omega) u hu with ⟨a, b⟩ | c
           · exact Or.inl ⟨Or.inr a, b⟩
           · exact Or.inr c
       | quant q vs f =>
@@ -554,41 +621,33 @@ theorem substFuel_ok (M : HTI) : ∀ n, SubOK M (Formula.substFuel n) n := by
         · rename_i hv
           exact Or.inl ⟨hu, fun e => hu.2 (e ▸ hv)⟩
         · rename_i hv
-          have hL := renameLoop_ok M (Formula.substFuel n) n ih s.vars vs f
-            (ins (ext (ext f.fv s.vars) vs) v) hdf hnb.2 hnb.1
-            (fun u hu => mem_ins.mpr (Or.inl (mem_ext.mpr (Or.inl (mem_ext.mpr (Or.inl (Formula.mem_fv.mpr hu)))))))
-            (fun u hu => mem_ins.mpr (Or.inl (mem_ext.mpr (Or.inl (mem_ext.mpr (Or.inr hu))))))
-            (fun u hu => mem_ins.mpr (Or.inl (mem_ext.mpr (Or.inr hu))))
+          obtain ⟨h1, h2, h3⟩ := loop_hyps f s vs v
+          have hL := renameLoop_ok M (Formula.substFuel n) n ih s.vars vs f _ hdf h1 h2 h3
           generalize renameLoop (Formula.substFuel n) s.vars vs f (ins (ext (ext f.fv s.vars) vs) v) = r at hL hu
           rw [quantify_FV] at hu
-          rcases ih.fv r.1 v s hc (Nat.le_trans hL.depth hdf) hL.nodupB u hu.1 with ⟨h1, h2⟩ | h3
+          rcases ih.fv r.1 v s hc (Nat.le_trans hL.depth hdf) u hu.1 with ⟨h1, h2⟩ | h3
           · exact Or.inl ⟨hL.fv u h1 hu.2, h2⟩
           · exact Or.inr h3
 
-/-- **Substitution lemma, general case.** For every formula whose quantifier blocks bind no
-    variable twice, every variable, every sort-compatible term, every HT interpretation, world
-    and assignment. -/
-theorem ht_subst (M : HTI) (F : Formula) (hnb : NodupBinders F) (v : Var) (s : GTerm)
+/-- **Substitution lemma, general case**: every formula (repeated binders, binders naming variables
+    of the term, several per block, fresh-name candidates taken …), every variable, every
+    sort-compatible term, every HT interpretation, world and assignment. -/
+theorem ht_subst (M : HTI) (F : Formula) (v : Var) (s : GTerm)
     (hc : SortCompatible v s) (w : World) (ρ : Asg) :
     ht M (F.subst v s) w ρ ↔ ht M F w (ρ.set v (s.eval M.fc ρ)) :=
-  (substFuel_ok M (F.depth + 1)).sem F (Nat.le_succ _) hnb v s hc w ρ
+  (substFuel_ok M (F.depth + 1)).sem F (Nat.le_succ _) v s hc w ρ
 
-theorem sat_subst (I : Interp) (F : Formula) (hnb : NodupBinders F) (v : Var) (s : GTerm)
+theorem sat_subst (I : Interp) (F : Formula) (v : Var) (s : GTerm)
     (hc : SortCompatible v s) (ρ : Asg) :
     sat I (F.subst v s) ρ ↔ sat I F (ρ.set v (s.eval I.fc ρ)) := by
-  have := ht_subst ⟨I.pred, I.pred, I.fc⟩ F hnb v s hc .there ρ
+  have := ht_subst ⟨I.pred, I.pred, I.fc⟩ F v s hc .there ρ
   rwa [ht_there_eq_sat, ht_there_eq_sat] at this
 
 /-- Free variables of the result: those of the original except the variable, plus (at most)
     those of the term. -/
-theorem subst_FV (F : Formula) (hnb : NodupBinders F) (v : Var) (s : GTerm) (hc : SortCompatible v s)
+theorem subst_FV (F : Formula) (v : Var) (s : GTerm) (hc : SortCompatible v s)
     (u : Var) (hu : (F.subst v s).FV u) : (F.FV u ∧ u ≠ v) ∨ u ∈ s.vars :=
   (substFuel_ok ⟨fun _ _ => True, fun _ _ => True, fun _ _ => .inf⟩ (F.depth + 1)).fv F v s hc
-    (Nat.le_succ _) hnb u hu
-
-theorem subst_nodupBinders (F : Formula) (hnb : NodupBinders F) (v : Var) (s : GTerm) :
-    NodupBinders (F.subst v s) :=
-  (substFuel_ok ⟨fun _ _ => True, fun _ _ => True, fun _ _ => .inf⟩ (F.depth + 1)).nodup F v s
-    (Nat.le_succ _) hnb
+    (Nat.le_succ _) u hu
 
 end Anthem
